@@ -18,7 +18,7 @@ use crate::{
             },
         },
         format::format_part,
-        offset::{add_offset_to_dn, remove_offset_from_dn},
+        offset::{add_offset_to_dn, remove_offset_from_dn, try_remove_offset_from_dn},
         parse::{
             parse_format_string, parse_offset, parse_part, ParseUnit, ParsedDate, ParsedTime,
             Period,
@@ -623,7 +623,7 @@ impl DateUtilities for DateTime {
         let new_days = set_year(days, year)?;
 
         Ok(Self {
-            days: remove_offset_from_dn(new_days, nanoseconds, offset_seconds).0,
+            days: try_remove_offset_from_dn(new_days, nanoseconds, offset_seconds)?.0,
             nanoseconds: self.nanoseconds,
             offset: self.offset,
         })
@@ -636,7 +636,7 @@ impl DateUtilities for DateTime {
         let new_days = set_month(days, month)?;
 
         Ok(Self {
-            days: remove_offset_from_dn(new_days, nanoseconds, offset_seconds).0,
+            days: try_remove_offset_from_dn(new_days, nanoseconds, offset_seconds)?.0,
             nanoseconds: self.nanoseconds,
             offset: self.offset,
         })
@@ -649,7 +649,7 @@ impl DateUtilities for DateTime {
         let new_days = set_day(days, day)?;
 
         Ok(Self {
-            days: remove_offset_from_dn(new_days, nanoseconds, offset_seconds).0,
+            days: try_remove_offset_from_dn(new_days, nanoseconds, offset_seconds)?.0,
             nanoseconds: self.nanoseconds,
             offset: self.offset,
         })
@@ -662,7 +662,7 @@ impl DateUtilities for DateTime {
         let new_days = set_day_of_year(days, day_of_year)?;
 
         Ok(Self {
-            days: remove_offset_from_dn(new_days, nanoseconds, offset_seconds).0,
+            days: try_remove_offset_from_dn(new_days, nanoseconds, offset_seconds)?.0,
             nanoseconds: self.nanoseconds,
             offset: self.offset,
         })
